@@ -208,7 +208,7 @@ pub fn jobs() -> Vec<Job> {
             for ii in 0..12 {
                 if e.pi[ii].is_some() && seen.insert((e.packed, ii)) {
                     // all 12 integer types only for STANDARD and two radices; two types elsewhere
-                    let all_types = e.name == "STANDARD" || e.name == "R16" || e.name == "R3" || m.base_prefix != 0 || m.base_suffix != 0;
+                    let all_types = e.name == "STANDARD" || e.name == "R16" || e.name == "R3" || m.base_prefix != 0 || m.base_suffix != 0 || (m.digit_separator != 0 && m.integer_sep.any());
                     if all_types || ii == 8 || ii == 3 || ii == 2 || ii == 9 {
                         v.push(Job { entry: i, ty: Ty::Int(ii), punct: 0 });
                     }
